@@ -233,6 +233,8 @@ class DictOf(Shape):
 
     def sym(self, ex, name):
         d = SDict()
+        if self.default_factory:
+            d.default_factory = ex.world.builtins['int']
         for k, s in self.items.items():
             v = s.sym(ex, '%s[%r]' % (name, k)) if isinstance(s, Shape) else Const(s).sym(ex, name)
             N.dict_set(ex, d, Const(k).sym(ex, name), v)
@@ -997,6 +999,7 @@ def apply_contract(ex, c, f, args, kwargs):
         if nm not in env and i >= len(names) - nd:
             env[nm] = f.defaults[i - (len(names) - nd)]
     mod = f.module
+    ex.ghost.setdefault('call_args', {})[c.name] = dict(env)
     caller = ex.frames[-1].func.qualname if ex.frames and ex.frames[-1].func else '?'
     for i, r in enumerate(c.requires):
         ex.oblige('%s/call-pre:%s#%d' % (caller, c.name, i), clause_truth(ex, r, env, mod, None, '+'),
@@ -1015,7 +1018,10 @@ def apply_contract(ex, c, f, args, kwargs):
     ex.ghost['old_env'] = old_env
     try:
         if k == 0:
-            res = c.returns.sym(ex, 'ret!' + c.name.split(':')[-1]) if c.returns is not None else None
+            if isinstance(c.returns, str):
+                res = eval_clause(ex, c.returns, env, mod)
+            else:
+                res = c.returns.sym(ex, 'ret!' + c.name.split(':')[-1]) if c.returns is not None else None
             if ex.ghost.get('live_env') is not None:
                 tmp = dict(ex.ghost['live_env'])
                 tmp['__result__'] = res
